@@ -240,3 +240,142 @@ fn c11_square_text_roundtrip() {
     assert!(Square::try_from(txt) == Ok(s));
     kani::cover!(i == 63, "h8 reachable");
 }
+
+// ---- the FEN reader after its regex gate (extracted verbatim) --------------------------------------------------------------
+
+/// stands in for regex::Captures: indexable by group number, yielding the captured text
+pub struct Groups<'a>(pub [&'a str; 9]);
+impl<'a> std::ops::Index<usize> for Groups<'a> {
+    type Output = str;
+    fn index(&self, i: usize) -> &str {
+        self.0[i]
+    }
+}
+
+include!("fen_reader_extracted.rs");
+
+/// Reader contract, part A: one field symbolic at a time (the reader handles the fields one after the other and they
+/// share no state), all field lengths concrete.  `which`: 0 castling set (each of the four letters present or replaced
+/// by '-'), 1 en-passant square, 2 the two clocks as three-digit numbers 000..999.  Jointly symbolic fields exhausted
+/// 12 GB in CBMC.
+fn reader_field_obligation(which: u8) {
+    let turn = any_color();
+    let bits: u8 = if which == 0 { kani::any() } else { 10 };
+    kani::assume(bits < 16);
+    let ep = if which == 1 { any_square() } else { sq(20) };
+    let hd: [u8; 3] = if which == 2 { kani::any() } else { [1, 0, 1] };
+    let fd: [u8; 3] = if which == 2 { kani::any() } else { [0, 4, 2] };
+    kani::assume(hd[0] < 10 && hd[1] < 10 && hd[2] < 10 && fd[0] < 10 && fd[1] < 10 && fd[2] < 10);
+    let cb = [
+        if bits & 1 != 0 { b'K' } else { b'-' },
+        if bits & 2 != 0 { b'Q' } else { b'-' },
+        if bits & 4 != 0 { b'k' } else { b'-' },
+        if bits & 8 != 0 { b'q' } else { b'-' },
+    ];
+    let eb = [b'a' + sq_u8(ep) % 8, b'1' + sq_u8(ep) / 8];
+    let hb = [b'0' + hd[0], b'0' + hd[1], b'0' + hd[2]];
+    let fb = [b'0' + fd[0], b'0' + fd[1], b'0' + fd[2]];
+    // SAFETY (harness only): ASCII by construction
+    let groups = Groups([
+        "",
+        "4k3/8/8/8/8/8/8/4K3",
+        "",
+        if turn == Color::White { "w" } else { "b" },
+        unsafe { std::str::from_utf8_unchecked(&cb) },
+        "",
+        unsafe { std::str::from_utf8_unchecked(&eb) },
+        unsafe { std::str::from_utf8_unchecked(&hb) },
+        unsafe { std::str::from_utf8_unchecked(&fb) },
+    ]);
+    let r = fen_reader_after_regex(&groups);
+    assert!(r.is_ok());
+    let st = r.unwrap();
+    assert!(st.turn_to_move() == turn && st.en_passant_target() == Some(ep));
+    assert!(st.castle_rights(Color::White).kingside == (bits & 1 != 0) && st.castle_rights(Color::White).queenside == (bits & 2 != 0));
+    assert!(st.castle_rights(Color::Black).kingside == (bits & 4 != 0) && st.castle_rights(Color::Black).queenside == (bits & 8 != 0));
+    assert!(st.clock().halfmove_clock == 100 * hd[0] as usize + 10 * hd[1] as usize + hd[2] as usize);
+    assert!(st.clock().fullmove_number == 100 * fd[0] as usize + 10 * fd[1] as usize + fd[2] as usize);
+    assert!(bb(st.board().piece_occupancy(PieceIndex::new(Color::White, Piece::King))) == bit(4));
+    assert!(bb(st.board().piece_occupancy(PieceIndex::new(Color::Black, Piece::King))) == bit(60));
+    assert!(bb(st.board().occupancy()) == bit(4) | bit(60));
+    kani::cover!(turn == Color::Black, "reachable");
+}
+
+#[kani::proof]
+#[kani::unwind(66)]
+fn c11_reader_castling_field_contract() {
+    reader_field_obligation(0)
+}
+
+#[kani::proof]
+#[kani::unwind(66)]
+fn c11_reader_en_passant_field_contract() {
+    reader_field_obligation(1)
+}
+
+#[kani::proof]
+#[kani::unwind(66)]
+fn c11_reader_clock_fields_contract() {
+    reader_field_obligation(2)
+}
+
+/// Reader contract, part B: the dash forms -- "-" for no castling right and "-" for no en-passant target
+#[kani::proof]
+#[kani::unwind(66)]
+fn c11_reader_dashes_contract() {
+    let turn = any_color();
+    let groups = Groups(["", "4k3/8/8/8/8/8/8/4K3", "", if turn == Color::White { "w" } else { "b" }, "-", "", "-", "0", "1"]);
+    let r = fen_reader_after_regex(&groups);
+    assert!(r.is_ok());
+    let st = r.unwrap();
+    assert!(st.turn_to_move() == turn && st.en_passant_target().is_none());
+    assert!(st.castle_rights(Color::White).none() && st.castle_rights(Color::Black).none());
+    assert!(st.clock().halfmove_clock == 0 && st.clock().fullmove_number == 1);
+    kani::cover!(turn == Color::Black, "reachable");
+}
+
+// ---- bounded stand-in (native, exhaustive over the finite non-placement domain): writer and FULL reader, regex included ----
+
+#[cfg(test)]
+mod native {
+    use super::*;
+    use crate::notation::{into_notation, try_from_notation};
+
+    #[test]
+    fn c11_native_fields_exhaustive() {
+        let placements = ["4k3/8/8/8/8/8/8/4K3", "r3k2r/8/8/8/8/8/8/R3K2R", "rnbqkbnr/pppppppp/8/8/8/8/PPPPPPPP/RNBQKBNR"];
+        let clocks: [usize; 8] = [0, 1, 9, 10, 99, 100, 101, 65535];
+        let mut count = 0u64;
+        for placement in placements {
+            for side in ["w", "b"] {
+                for bits in 0u8..16 {
+                    let mut cb = [0u8; 96];
+                    let mut cn = 0usize;
+                    spec_castle_field(bits, &mut cb, &mut cn);
+                    let castle = std::str::from_utf8(&cb[..cn]).unwrap().to_string();
+                    for ep in 0u8..=64 {
+                        let ep_txt = if ep == 64 { "-".to_string() } else { format!("{}{}", (b'a' + ep % 8) as char, (b'1' + ep / 8) as char) };
+                        for (i, h) in clocks.iter().enumerate() {
+                            let f = clocks[(i + 3) % clocks.len()];
+                            let fen = format!("{} {} {} {} {} {}", placement, side, castle, ep_txt, h, f);
+                            let state: State = try_from_notation::<State, Fen>(&fen).expect("canonical FEN must be read");
+                            // read: exactly the components spelled
+                            assert_eq!(state.turn_to_move() == Color::White, side == "w", "{}", fen);
+                            assert_eq!(state.castle_rights(Color::White).kingside, bits & 1 != 0, "{}", fen);
+                            assert_eq!(state.castle_rights(Color::White).queenside, bits & 2 != 0, "{}", fen);
+                            assert_eq!(state.castle_rights(Color::Black).kingside, bits & 4 != 0, "{}", fen);
+                            assert_eq!(state.castle_rights(Color::Black).queenside, bits & 8 != 0, "{}", fen);
+                            assert_eq!(state.en_passant_target().map(|s| sq_u8(s)), if ep == 64 { None } else { Some(ep) }, "{}", fen);
+                            assert_eq!(state.clock().halfmove_clock, *h, "{}", fen);
+                            assert_eq!(state.clock().fullmove_number, f, "{}", fen);
+                            // written back character for character
+                            assert_eq!(into_notation::<_, Fen>(&state).to_string(), fen);
+                            count += 1;
+                        }
+                    }
+                }
+            }
+        }
+        println!("NATIVE-COUNT {}", count);
+    }
+}
